@@ -302,6 +302,8 @@ QuiescentV(s, e) ==
     [] e.wr # 0 -> <<"C11", "a writer reservation was left behind at a quiescent point">>
     [] \E i, j \in 1..Len(e.spaces) : i < j /\ e.spaces[i] = e.spaces[j] /\ e.spaces[i] > 0
          -> <<"C01+C03", "two threads' bookkeeping share one hand-over envelope at a quiescent point (a later helped load can be handed another load's value)">>
+    [] Cardinality({i \in 1..Len(e.inuse) : e.inuse[i] = 1}) > Cardinality(s.alive)
+         -> <<"C11", "more per-thread bookkeeping is reserved than threads are alive (bookkeeping of a finished thread is not given back, it can never be reused)">>
     [] Len(e.inuse) > 2 * s.peak + 1
          -> <<"C11", "more per-thread bookkeeping exists than twice the peak number of threads alive at once (not reused)">>
     [] OTHER -> OK
